@@ -57,6 +57,22 @@ CLAIMED = {
         design_ref="DESIGN.md §2 C09",
         engine="p-stm",
     ),
+    "C10": dict(
+        category="exploration",
+        text="4000 honest databases per quick run (1-8 immutable trios plus the in-progress trio, equal and empty contents included), the certified side built by the real digester and cross-checked against a harness SHA-256/MMR restatement, the digest list served over file:// to a real ClientBuilder client; 0-3 tamperings of the restored directory (flip, truncate, append, delete, replace, swap, copy-over, rotate extensions, foreign files of 7 kinds) and 0-2 of the served list (reorder, add, duplicate, rename keeping order, drop, swap digests or names, flip a digest, conflicting duplicate, empty) plus a coordinated scramble; ranges Full/From/UpTo/inner/single/invalid and allow_missing both ways; then the CLI sequence download_and_verify_digests -> verify_cardano_database -> compute_cardano_database_message -> match_message. Oracle: acceptance judged per file NAME against harness SHA-256, accepted digests reproduce the signed root, every offending name reported on rejection, positive control. Found two genuine defects (repaired).",
+        note="Certificate authenticity assumed (dummy certificate carrying the real signed-message hash); immutable numbers below 100000; SHA-256 collision resistance; certified side built by the real digester and cross-checked.",
+        technique="property-based testing: mutation grammar over honest artefacts + independent per-name acceptance oracle + positive control (proptest)",
+        design_ref="DESIGN.md §2 C10",
+        engine="p-fs",
+    ),
+    "C12": dict(
+        category="exploration",
+        text="About 8000 generated databases per quick run: a canonical name->content map (1-10 trios, sizes 0-140 KB, equal contents, numbers straddling 99999/100000) written in 2-3 on-disk materialisations differing in creation order, directory handed over, extra files (non-immutable names, look-alike sub-directories, files beside immutable/, trios beyond the beacon) and digest-cache history (none / memory / JSON: absent, empty, corrupt; warm from the same, a longer or a shorter run; database grown between runs; partial fill; entries for vanished names); every computation (compute_merkle_tree, compute_digests_for_range, the signable builder) compared with an independent restatement (own name parsing, (number,name) order, SHA-256 per file, own MMR root with Blake2s pinned by the repository's golden root) and across materialisations; a second section applies one perturbation to a cache-less database and requires the root to change (or NotEnoughImmutable) exactly when the covered name->content map changed.",
+        note="Trusted: RustCrypto SHA-256/Blake2s and the MMR definition. Domain: one `immutable` directory, decimal stems, files unchanged after digesting; a stale cache after a file change is outside the statement.",
+        technique="property-based testing: differential vs reference model + metamorphic (layout/cache invariance, perturbation sensitivity), stateful cache histories (proptest)",
+        design_ref="DESIGN.md §2 C12",
+        engine="p-fs",
+    ),
     "C17": dict(
         category="exploration",
         text="Exhaustive walk of every (security parameter <= 40, step <= 40, tip <= 200) triple for both entity kinds plus 60k generated (tip, tip+delta, k, step, epoch) cases at the numeric boundaries (0, 1, block-range length +-1, 2^32+-1, 2^62, u64::MAX tips); each clause of the statement (margin, monotone, whole steps, complete block range, purity across independently built / JSON round-tripped configs) is an executable oracle. Arithmetic on a three-parameter integer function is exactly where a small exhaustive box plus boundary sampling is decisive.",
@@ -72,6 +88,14 @@ CLAIMED = {
         technique="property-based testing: model-based op sequences + controlled-schedule concurrency testing (source recompiled against shuttle, generated schedules)",
         design_ref="DESIGN.md §2 C18",
         engine="p-pool",
+    ),
+    "C19": dict(
+        category="exploration",
+        text="About 4000 real download_unpack calls per quick run (real ClientBuilder client, real HttpFileDownloader with the tar/zstd/gzip unpacker wrapped in the default retry stack, real AncillaryVerifier with a harness ed25519 key) against harness mirrors behind file:// locations (about 6% over a loopback HTTP server for the streaming branch). Archives come from a raw tar writer: 21 kinds of immutable-archive extras (ledger/, volatile/, top level, nested, marker shadowing, numbers outside range / beyond beacon, absolute and .. paths, symlinks, hardlinks, GNU long names, truncated tar, cut compressed stream), 9 ancillary extras, 13 manifest alterations; faults: missing location, corrupt/truncated archive, blocked final move, second mirrors, and a FIFO-synchronised abort while the ancillary download is provably in flight. Oracle: an independent containment rule on the resulting directory tree from harness bookkeeping (new files must be requested-range trio names, markers with the exact content after Ok, or (path, sha256) pairs of the one manifest the harness signed; nothing of the ancillary archive after a failed verification; user files and the sentinel parent untouched; honest downloads deliver exactly the expected files). Ten mutants caught; five finding classes are open known findings.",
+        note="Trusted base: the harness signer stands for the ancillary key holder; the snapshot message shape is honest; tar/zstd/flate2 crates as shipped. Interleavings of parallel downloads are sampled only through the sequential order plus one synchronised abort schedule. Empty directories are ignored.",
+        technique="property-based testing with fault injection: generated hostile tar/zstd/gzip mirrors, directory-tree containment oracle, signed-manifest bookkeeping, FIFO-synchronised abort injection (proptest)",
+        design_ref="DESIGN.md §2 C19",
+        engine="p-fs",
     ),
 }
 
